@@ -389,6 +389,7 @@ def _run_grainfile(desc):
                 gm.write_grain_file(fn, [gm.grain(truth[k][0], translation=pat[k]) for k in range(n)])
                 back = gm.read_grain_file(fn)
                 sh.evaluations += 1
+                sh.states += 1
                 sh.nontrivial += any(t is None for t in pat) and any(t is not None for t in pat)
                 sh.outcomes.add(tuple(t is None for t in pat))
                 bad = len(back) != n
